@@ -4,7 +4,7 @@ READY = True
 SPEC = {
     "targets": ["Properties/C03.vo", "Run/C03.vo"],
     "theorems": {"Properties.C03": [
-        "C03_changes_track_renames", "C03_rename_onto_deleted_path_tracked", "C03_copy_entry_consumes_source_record", "C03_changes_bodies_fork_and_head", "C03_compared_versions_are_fork_and_head", "C03_changes_have_commits", "C03_git_tables",
+        "C03_changes_track_renames", "C03_rename_onto_deleted_path_tracked", "C03_copy_entry_keeps_source_record", "C03_copy_entry_leaves_source_alone", "C03_changes_bodies_fork_and_head", "C03_compared_versions_are_fork_and_head", "C03_changes_have_commits", "C03_git_tables",
         "C03_unquote_inverts_git_quoting", "C03_match_sound", "C03_added_only_if_ambiguous", "C03_disables_order_irrelevant", "C03_state_sound", "C03_state_tables",
         "C03_changed_never_skipped", "C03_untouched_noop", "C03_untouched_moved", "C03_merge_sound", "C03_untouched_final_noop", "C03_final_state_origin", "C03_changed_final_never_skipped", "C03_history_untouched_noop", "C03_history_changed_never_skipped", "C03_classify_unfold", "C03_nonvacuous", "C03_faithful_nonvacuous"]},
     "harness_args": lambda tier: ["C03", "--n", 240 if tier == "quick" else 3000,
